@@ -265,10 +265,14 @@ def run_history(roots: list, ops: list, numeric: bool = False) -> dict:  # noqa:
                     continue  # values differ by design (set ops); keys/values are checked below
                 if want[attr] != got[attr] and not same_up_to_canonicalisation(root, model, attr, cmap):
                     flag(f"attr:{attr}", f"slot {si} ({rx}): '{attr}' is not the root's under the composed map {cmap}", oi)
-            want_keys = sorted(canon.digest(k, rename=cmap) for k in root.parameter_defaults)
-            got_keys = sorted(canon.digest(k) for k in model.parameter_defaults)
-            if want_keys != got_keys:
+            want_order = [canon.digest(k, rename=cmap) for k in root.parameter_defaults]
+            got_order = [canon.digest(k) for k in model.parameter_defaults]
+            if sorted(want_order) != sorted(got_order):
                 flag("attr:parameter_defaults", f"slot {si} ({rx}): parameter keys are not the root's under {cmap}", oi)
+            elif want_order != got_order:
+                # parameter_defaults is an ordered mapping with lookup by index: a renaming keeps the order
+                first = next(i for i, (w, g) in enumerate(zip(want_order, got_order)) if w != g)
+                flag("order:parameter_defaults", f"slot {si} ({rx}): parameter order differs from the root's from position {first} on", oi)
             expected = {k: v[0] for k, v in slot["sources"].items()}
             if actual != expected and not slot.get("collided"):
                 diff = {k: (actual.get(k), expected.get(k)) for k in set(actual) | set(expected)
